@@ -426,6 +426,9 @@ def translation_stage(mod):
     tr = getattr(mod, "TRANSLATION", None)
     if not tr:
         return None
+    # the interpreter the generated module is compiled against must be up to date (no property lists it
+    # in COQ_MODULES; its sources are part of the cache key below)
+    build(["MiniPy", "MiniPyFacts"])
     gen_mod = tr["spec"]["module"]
     proofs = list(tr["proofs"])
     res = {"ok": False, "qdir": None, "theorems": [], "problems": [], "generated_sha": None, "cached": False,
@@ -514,8 +517,11 @@ def translation_stage(mod):
                     else:
                         theorems += r["theorems"]
             out = dict(res, ok=not problems, theorems=theorems, problems=problems, built=runnable)
-            with open(rj, "w") as f:
-                json.dump(out, f)
+            if runnable:
+                # a generated module (or model file) that does not compile is not cached: the cause may
+                # lie outside the cache key (a stale .vo of a dependency), and the next run must retry
+                with open(rj, "w") as f:
+                    json.dump(out, f)
             out["qdir"] = qdir if runnable else None
             return out
         finally:
